@@ -59,21 +59,39 @@ func maskOps(v []byte) string {
 		ids = append(ids, id)
 	}
 	sort.Strings(ids)
-	var sb strings.Builder
+	var parts []string
 	for _, id := range ids {
 		o := ops[id]
+		var sb strings.Builder
+		shown := id
+		if maskOpIDs {
+			// an identifier hashes the payload; a payload that embeds operations
+			// created while the tick ran (reinit) carries the time of that tick
+			shown = "ID"
+			if o != nil && o.ID != id {
+				shown = "ID(differs from its key)"
+			}
+		}
 		if o == nil {
-			sb.WriteString(id + "=null;")
+			parts = append(parts, shown+"=null;")
 			continue
 		}
-		fmt.Fprintf(&sb, "%s={type=%s round=%s event=%s to=%s payload=%s extra=%x msgs=[", id, o.Type, o.DKGIdentifier, o.Event, o.To, maskTimes(o.Payload), o.ExtraData)
+		fmt.Fprintf(&sb, "%s={type=%s round=%s event=%s to=%s payload=%s extra=%x msgs=[", shown, o.Type, o.DKGIdentifier, o.Event, o.To, maskTimes(o.Payload), o.ExtraData)
 		for _, m := range o.ResultMsgs {
 			fmt.Fprintf(&sb, "(%s %s>%s %s signed=%v %s)", m.Event, m.SenderAddr, m.RecipientAddr, m.DkgRoundID, len(m.Signature) > 0, maskTimes(m.Data))
 		}
 		sb.WriteString("]};")
+		parts = append(parts, sb.String())
 	}
-	return sb.String()
+	if maskOpIDs {
+		sort.Strings(parts)
+	}
+	return strings.Join(parts, "")
 }
+
+// maskOpIDs: operation identifiers are not compared (round-trip races, where
+// the operation is created anew in every execution from the checkpoint)
+var maskOpIDs bool
 
 // canonSnap renders the durable state canonically with times masked; nested
 // JSON-in-JSON (the fsm_state blob holds base64 dumps) is decoded first.
@@ -486,6 +504,299 @@ func raceAndJudge(w *World, nd *HotNode, spec *raceSpec, tier string, n, t int) 
 	w.Stats.Probe("race-" + strings.SplitN(spec.kind, ":", 2)[0])
 	_ = os.RemoveAll(ckpt)
 	return true, map[string]interface{}{"n": n, "t": t, "request": spec.kind, "tick_messages": msgKinds, "serial_orders": len(serialOut), "distinct_serial_outcomes": len(serial), "distinct_schedules": len(schedules)}
+}
+
+// roundTripAndJudge races a poll tick with the request that answers an operation
+// THE SAME TICK creates: the operator sees the new operation in the pool while
+// the poller is still busy with the message that created it (parked at a gate a
+// few store calls further on), carries it to the machine and submits the answer
+// before the poller goes on. The request cannot be prepared in advance, so the
+// serial orders are: tick up to a message boundary behind the creating message,
+// complete round trip, rest of the tick. The machine is asked once; for the other
+// executions from the checkpoint its answer is attached to the operation as that
+// execution created it (the answer does not depend on identifiers or times).
+func roundTripAndJudge(w *World, nd *HotNode, air *AirNode, tier string, n, t int, label string) (bool, interface{}) {
+	w.stopNode(nd, true)
+	w.PostGates = true
+	maskOpIDs = true
+	defer func() { maskOpIDs = false; w.PostGates = false }()
+	ckpt := w.Path("ckpt_state_rt")
+	if err := copyDir(nd.StateDir, ckpt); err != nil {
+		panic(err)
+	}
+	L0 := w.Board.Len()
+	firstMsg := int(offsetOfDir(w, nd))
+	msgs := L0 - firstMsg
+	if msgs > 3 {
+		msgs = 3
+	}
+	if msgs < 1 {
+		return false, "nothing waiting for the victim"
+	}
+	var msgKinds []string
+	for i := firstMsg; i < firstMsg+msgs; i++ {
+		msgKinds = append(msgKinds, w.Board.Msgs[i].Event)
+	}
+	restore := func() {
+		if nd.inc != nil {
+			w.stopNode(nd, false)
+		}
+		_ = copyDir(ckpt, nd.StateDir)
+		w.Board.Msgs = w.Board.Msgs[:L0]
+		nd.Handle.UnignoreMessages()
+		if err := w.StartNode(nd); err != nil {
+			panic(err)
+		}
+	}
+	known := map[string]bool{}
+	restore()
+	for _, o := range nd.PendingOps() {
+		known[o.ID] = true
+	}
+	newOp := func() *types.Operation {
+		for _, o := range nd.PendingOps() {
+			if !known[o.ID] && string(o.Type) != string(spf.StateAwaitParticipantsConfirmations) {
+				return o
+			}
+		}
+		return nil
+	}
+	collect := func(reply *APIResult) raceOutcome {
+		var o raceOutcome
+		snap, _ := nd.inc.real.SimSnapshot()
+		o.snap, o.detail = canonSnap(snap)
+		switch {
+		case reply == nil:
+			o.reply = "none"
+		case reply.Panic != "":
+			o.reply = "panic"
+		case reply.OK():
+			o.reply = "ok"
+		default:
+			o.reply = "error"
+		}
+		var ap []string
+		for _, m := range w.Board.Msgs[L0:] {
+			ap = append(ap, fmt.Sprintf("%s>%s:%x", m.Event, m.RecipientAddr, sha256.Sum256([]byte(maskTimes(m.Data))))[:60])
+		}
+		sort.Strings(ap)
+		o.appends = strings.Join(ap, "|")
+		var ps []string
+		for _, p := range nd.PendingOps() {
+			ps = append(ps, string(p.Type))
+		}
+		o.pending = strings.Join(ps, ",")
+		return o
+	}
+	tickOnce := func(limit int) {
+		w.Advance(1e9)
+		if p := nd.inc.Poller; p.Parked() != nil {
+			nd.Handle.ReadLimit = limit
+			w.RunPollTick(p)
+			nd.Handle.ReadLimit = 0
+		}
+	}
+	// the machine's answer, asked for once
+	var answer *types.Operation
+	opType := ""
+	answerFor := func(op *types.Operation) []byte {
+		get := w.CallAPI(nd, "getOperation", "GET", "/getOperation?operationID="+q(op.ID), nil)
+		if !get.OK() {
+			return nil
+		}
+		if answer == nil {
+			res, err := w.AirProcess(air, []byte(get.Result))
+			if err != nil || res == nil {
+				return nil
+			}
+			var ro types.Operation
+			if json.Unmarshal(res, &ro) != nil {
+				return nil
+			}
+			CanonicalResultMsgs(ro.ResultMsgs)
+			answer = &ro
+			opType = string(op.Type)
+		}
+		var fresh types.Operation
+		if json.Unmarshal(get.Result, &fresh) != nil {
+			return nil
+		}
+		fresh.Event = answer.Event
+		fresh.ExtraData = answer.ExtraData
+		fresh.ResultMsgs = answer.ResultMsgs
+		body, _ := json.Marshal(fresh)
+		return body
+	}
+	// ---- serial orders ---------------------------------------------------------
+	serial := map[string]string{}
+	var serialOut []raceOutcome
+	for pos := 1; pos <= msgs; pos++ {
+		if pos > 1 {
+			restore()
+		}
+		tickOnce(pos)
+		op := newOp()
+		if op == nil {
+			continue
+		}
+		body := answerFor(op)
+		if body == nil {
+			return false, "the machine gave no answer to the new operation"
+		}
+		reply := w.CallAPI(nd, "roundtrip", "POST", "/handleProcessedOperationJSON", body)
+		if pos < msgs {
+			tickOnce(msgs - pos)
+		}
+		o := collect(reply)
+		serial[o.key()] = fmt.Sprintf("round trip after %d of %d messages", pos, msgs)
+		serialOut = append(serialOut, o)
+	}
+	if len(serialOut) == 0 {
+		_ = os.RemoveAll(ckpt)
+		return false, fmt.Sprintf("the tick over [%s] creates no operation", strings.Join(msgKinds, ","))
+	}
+	kindName := "roundtrip:" + opType
+	w.Abstract[kindName+" x "+strings.Join(msgKinds, ",")] = true
+	// ---- concurrent executions: the round trip happens at a gate inside the tick
+	runs := 8
+	if tier == "thorough" {
+		runs = 24
+	}
+	positions := map[string]bool{}
+	for r := 0; r < runs && !w.Failed(); r++ {
+		restore()
+		w.Advance(1e9)
+		poll := nd.inc.Poller
+		nd.Handle.ReadLimit = msgs
+		later := w.Tape.Choose(10, "gatesAfterTheOperationAppears")
+		seenAt := -1
+		started := false
+		var api *Task
+		var reply *APIResult
+		where := ""
+		for g := 0; g < 6000; g++ {
+			p := poll.Parked()
+			if p == nil || (started && p.Point == "st.loadOffset") {
+				break
+			}
+			started = true
+			if api == nil {
+				if op := newOp(); op != nil {
+					if seenAt < 0 {
+						seenAt = g
+					}
+					if g-seenAt >= later {
+						body := answerFor(op)
+						if body == nil {
+							break
+						}
+						where = p.Point + " " + canonKey(p.Key)
+						w.Log.Add("round trip while the poller is parked at %s %s", p.Point, p.Key)
+						w.Stats.Fault("preempt")
+						api = w.SpawnAPI(nd, "roundtrip", "POST", "/handleProcessedOperationJSON", body, &reply)
+						// the request runs as far as it can; where it needs a product lock the
+						// parked poller holds, the poller moves on gate by gate until it is free
+						for k := 0; k < 4000 && !api.Done(); k++ {
+							if api.Parked() != nil {
+								if w.GrantNB(api) {
+									w.settle()
+									continue
+								}
+							}
+							// blocked on a lock: let the holder run one gate
+							if pp := poll.Parked(); pp != nil && !(pp.Point == "st.loadOffset") {
+								w.GrantNB(poll)
+							}
+							for j := 0; j < 200000; j++ {
+								if api.Done() || api.Parked() != nil {
+									break
+								}
+								runtime.Gosched()
+							}
+							if api.Done() || api.Parked() != nil {
+								w.settle()
+							}
+						}
+						continue
+					}
+				}
+			}
+			w.GrantNB(poll)
+			w.settle()
+		}
+		nd.Handle.ReadLimit = 0
+		if api == nil {
+			// the operation appeared too late in the tick for the drawn distance: submit behind the tick
+			if op := newOp(); op != nil {
+				if body := answerFor(op); body != nil {
+					reply = w.CallAPI(nd, "roundtrip", "POST", "/handleProcessedOperationJSON", body)
+					where = "behind the tick"
+				}
+			}
+		} else {
+			reply = w.finishAPI(nd, api, reply)
+		}
+		positions[where] = true
+		if poll.Done() {
+			w.collectPanics(nd)
+			if len(nd.Panics) > 0 {
+				w.Fail("C14", "poller-panic-during-race/"+kindName, strings.Join(nd.Panics, "; "))
+				break
+			}
+		}
+		o := collect(reply)
+		if _, ok := serial[o.key()]; !ok {
+			best, bestN := 0, 1<<30
+			for i, so := range serialOut {
+				d := 0
+				for k, v := range o.detail {
+					if so.detail[k] != v {
+						d++
+					}
+				}
+				if so.reply != o.reply {
+					d++
+				}
+				if so.appends != o.appends {
+					d++
+				}
+				if d < bestN {
+					best, bestN = i, d
+				}
+			}
+			so := serialOut[best]
+			var diffs []string
+			for k, v := range o.detail {
+				if so.detail[k] != v {
+					diffs = append(diffs, k)
+				}
+			}
+			for k := range so.detail {
+				if _, ok := o.detail[k]; !ok {
+					diffs = append(diffs, "-"+k)
+				}
+			}
+			if so.reply != o.reply {
+				diffs = append(diffs, "api-reply:"+so.reply+"->"+o.reply)
+			}
+			if so.appends != o.appends {
+				diffs = append(diffs, "board-appends")
+			}
+			sort.Strings(diffs)
+			first := ""
+			for _, k := range diffs {
+				if a, ok := so.detail[k]; ok && first == "" {
+					first = "; " + k + ": " + firstDiff(a, o.detail[k])
+				}
+			}
+			w.Fail("C14", "not-serializable/"+kindName+"/"+strings.Join(diffs, ","),
+				fmt.Sprintf("the answer to the %s operation created by a tick over [%s], submitted while the poller was parked at %s: the outcome equals none of the %d serial orders; closest differs in %v; pending ops now [%s] vs [%s]%s", opType, strings.Join(msgKinds, ","), where, len(serialOut), diffs, o.pending, so.pending, first))
+		}
+	}
+	w.Stats.ProbeN("interleavings-executed", len(positions))
+	w.Stats.Probe("race-roundtrip")
+	_ = os.RemoveAll(ckpt)
+	return true, map[string]interface{}{"n": n, "t": t, "request": kindName, "tick_messages": msgKinds, "serial_orders": len(serialOut), "distinct_positions": len(positions), "label": label}
 }
 
 func compress(s string) string {
